@@ -223,6 +223,9 @@ def shards(tier, seed):
                 out.append(("len4_%s_%d" % (nm, part), dict(kind="lenN", reader=nm, n=4, part=part, parts=4)))
     out.append(("roundtrip_int_len", dict(kind="rt_int_len", big=not q)))
     out.append(("long_lengths", dict(kind="long_lengths")))
+    out.append(("pyopt_long_lengths", dict(kind="long_lengths", _pyopt=True)))
+    out.append(("pyopt_mutants", dict(kind="mutants", count=1500, _pyopt=True)))
+    out.append(("pyopt_short_integer", dict(kind="short_all", reader="integer", _pyopt=True)))
     out.append(("subidentifiers", dict(kind="subid")))
     out.append(("roundtrip_oid", dict(kind="rt_oid", count=400 if q else 6000)))
     out.append(("roundtrip_bodies", dict(kind="rt_bodies", big=not q)))
